@@ -63,6 +63,23 @@ for d in sorted(glob.glob(os.path.join(ROOT, "seeded", "C*"))):
     also = [k for k, v in cross.items() if v.get("caught")]
     w(f"| {sid} | {cell(meta.get('what_breaks',''), 260)} — needs: {cell(meta.get('needs_to_manifest',''), 200)} | {own_s} | {', '.join(also) or '–'} |")
 w("")
+w("### 0.5b Behaviour-preserving changes: which checks stay quiet (generated)\n")
+w("Each set is six refactors by a sub-agent that saw only the crate (swapped branches, early returns, loops <-> iterator chains, "
+  "hoisted locals, entry() API, commuted operands, literal spellings; files listed per change in `benign/<set>/meta.json`), confirmed "
+  "against the crate's own suite; `tools/run_benign_ws.py` applies `all.diff` in a scratch workspace and runs the quick tier of ALL "
+  "checks: every check is expected to exit 0.\n")
+w("| set | files | checks quiet | alarms |")
+w("|---|---|---|---|")
+for d in sorted(glob.glob(os.path.join(ROOT, "benign", "*"))):
+    if not os.path.exists(os.path.join(d, "result.json")):
+        continue
+    meta = json.load(open(os.path.join(d, "meta.json")))
+    res = json.load(open(os.path.join(d, "result.json")))["results"]
+    files = ", ".join(sorted({m.get("file", "?") for m in meta}))
+    quiet = [k for k, v in res.items() if not v.get("alarm")]
+    alarms = [k for k, v in res.items() if v.get("alarm")]
+    w(f"| {os.path.basename(d)} | {cell(files, 300)} | {len(quiet)}/{len(res)} | {', '.join(alarms) or '–'} |")
+w("")
 text = "\n".join(out)
 p = os.path.join(ROOT, "DESIGN.md")
 s = open(p).read()
